@@ -117,6 +117,42 @@ def run(ctx):
                 break
         if a is not None and a != impl:
             ctx.mismatch("dedup", dict(patterns=[enc(p) for p in ps]), a, impl)
+    # 2b. "any collection": a generator, an iterator, a list the caller changes afterwards - the listener is made from the
+    #     patterns it was given when it was created
+    multi0 = [ps for ps in colls if len(ps) >= 1]
+    for k, ps in enumerate(r.sample(multi0, min(len(multi0), ctx.scale(90, 900)))):
+        form = ["generator", "iterator", "list-changed-later"][k % 3]
+        calls = []
+        try:
+            if form == "generator":
+                lst = IndicationListener((p for p in ps), callback=calls.append)
+            elif form == "iterator":
+                lst = IndicationListener(iter(tuple(ps)), callback=calls.append)
+            else:
+                mutable = list(ps)
+                lst = IndicationListener(mutable, callback=calls.append)
+                mutable.extend(r.sample(allp, 3))
+                del mutable[0]
+        except Exception as ex:
+            ctx.counterexample("listener-construction-raised", dict(patterns=[enc(p) for p in ps], given_as=form), "a listener",
+                               "%s: %s" % (type(ex).__name__, ex), "building a listener from a collection of patterns raises")
+            continue
+        ctx.case(("form", form, tuple(enc(p) for p in ps)), sample=dict(patterns=[enc(p) for p in ps][:4], given_as=form))
+        ctx.count("collection-given-as:" + form)
+        for c in r.sample(allc, min(len(allc), 12)):
+            want = any(cmduniv.spec_matches(p, c) for p in ps)
+            n0 = len(calls)
+            try:
+                list(lst.matching_headers())
+                res = lst.resolve(c)
+            except Exception as ex:
+                res = "%s" % type(ex).__name__
+            fired = len(calls) - n0
+            if res != want or fired != (1 if want else 0):
+                ctx.counterexample("listener-set", dict(patterns=[enc(p) for p in ps], given_as=form, command=enc(c)),
+                                   dict(reacts=want, times=1 if want else 0), dict(resolve=res, fired=fired),
+                                   "a listener built from the collection does not react exactly once to exactly the matched commands")
+                break
     # 3. the same through the API: register_indication_listeners + frame_received of a real ZBOSS; in every
     #    second history a one-shot waiter for the same command is registered before each reception (it is resolved and
     #    goes away - the listener under test must not notice)
